@@ -21,6 +21,8 @@ RULE = ("one fresh interpreter per configuration = (PYSNARK_BACKEND unset / '' /
         "processes with the same pre-imported modules must select the same backend. Non-trivial = a backend ahead of the selected one is "
         "unloadable, or a module was pre-imported; distinct by configuration. quick samples the space, thorough "
         "enumerates it completely.")
+RULE += " Extensions (seeded rounds 10-15): the first pysnark import being a library module, PYSNARK_BACKEND set / changed / removed by the program after importing a helper module."
+
 
 REGISTRY = [
     ("libsnark", "pysnark.libsnark.backend", "libsnark"),
@@ -154,7 +156,11 @@ def run_case(cfg):
     import tempfile, shutil
     tmp = tempfile.mkdtemp(prefix="verif-c19-")
     try:
-        r = subprocess.run([sys.executable, "-c", CHILD % (bool(cfg.get("interactive")), [MOD[n] for n in pre], cfg.get("object"), [cfg["late"], cfg["env"]] if cfg.get("late") else None, cfg.get("first"), IFACE)], cwd=tmp, env=envv,
+        # interpreter flags that concern Python's OWN environment variables (-E, -I: PYTHONPATH and friends are ignored, so the
+        # paths are put on sys.path by the program itself; -s, -O, -B) say nothing about PYSNARK_BACKEND
+        pyflags = list(cfg.get("pyflags") or [])
+        prefix = ("import sys; sys.path[:0] = %r\n" % (paths,)) if pyflags else ""
+        r = subprocess.run([sys.executable] + pyflags + ["-c", prefix + CHILD % (bool(cfg.get("interactive")), [MOD[n] for n in pre], cfg.get("object"), [cfg["late"], cfg["env"]] if cfg.get("late") else None, cfg.get("first"), IFACE)], cwd=tmp, env=envv,
                            capture_output=True, text=True, timeout=120, start_new_session=True)
     finally:
         shutil.rmtree(tmp, ignore_errors=True)
@@ -168,6 +174,7 @@ def run_case(cfg):
                                                                     ", qaptools executables present but not executable" if load["qaptools"] == "noexec" else "",
                                                                   (", interactive session (get_ipython defined)" if cfg.get("interactive") else "") +
                                                                   (", first pysnark import is %s" % cfg["first"] if cfg.get("first") else "") +
+                                                                  (", interpreter flags %s" % " ".join(cfg["pyflags"]) if cfg.get("pyflags") else "") +
                                                                   (", set in os.environ after importing %s (the shell had %r)" % (cfg["late"], cfg.get("env0")) if cfg.get("late") else ""))
     if cfg.get("object"):
         if res is None:
@@ -247,6 +254,13 @@ def all_configs():
                 k += 1
                 if k % 4 == 0 or first == "pysnark.poseidon_hash" and load["flatbuffers"]:
                     out.append({"env": env, "pre": [], "load": load, "first": first})
+    k = 0
+    for env in ENVS:
+        for load in loads:
+            for flags in (["-E"], ["-I"], ["-s"], ["-O"], ["-B", "-E"]):
+                k += 1
+                if k % 5 == 0:
+                    out.append({"env": env, "pre": [], "load": load, "pyflags": flags})
     k = 0
     for env in ENVS:
         for env0 in (None, "nobackend", "zkinterface", "bogus"):
